@@ -33,6 +33,8 @@ Kind ==
         \o F(lab'.txs # <<>>, "-txs") \o F(Moved # {}, "-promote") \o F(Gone # {}, "-prune")
         \* a pruned transaction whose sender keeps a later one in the pool (the prune must not cascade)
         \o F(\E i \in Gone : \E j \in PoolIds(st') : cx.u[j].s = cx.u[i].s /\ cx.u[j].n > cx.u[i].n, "-keepsucc")
+        \* ... or keeps a transaction of a LATER EPOCH (the cascade is about the current epoch's sequence only)
+        \o F(\E i \in Gone : \E j \in PoolIds(st') : cx.u[j].s = cx.u[i].s /\ cx.u[j].e > cx.u[i].e, "-keepnextepoch")
         \o F(st'.ep # st.ep, "-epoch") \o F(SeqToSet(lab'.txs) \ PoolIds(st) # {}, "-unknown")
     ELSE IF e = "Build" THEN
         "Build" \o F(lab'.cand # <<>>, "-some") \o F(\E j \in 1..Len(lab'.cand) : cx.u[lab'.cand[j]].k > 0, "-pri")
